@@ -549,6 +549,16 @@ func (e *evalCtx) call(t *ast.CallExpr) Val {
 			e.fail("entry(%s): no such parameter", id2.Name)
 		}
 		return v
+	case "inmap":
+		// inmap(m, k): k is a key of map m
+		m := e.eval(t.Args[0])
+		if m.K != kMap {
+			e.fail("inmap needs a map")
+		}
+		k := e.eval(t.Args[1])
+		dk, _, mt := c.mapKeys(m.T)
+		ki := c.mapKeyIndex(mt, k)
+		return boolVal(and(not(eq(m.S, "0")), sx("select", sx("select", c.heapGet(e.st, dk, "Bool"), m.S), ki)))
 	case "onlyobjs":
 		// onlyobjs(s1, s2, ...): among the objects that existed in the
 		// reference state (old state / loop entry), only those of s1, s2, ...
